@@ -5,7 +5,7 @@
 cd /verif || exit 9
 [ -z "$(git -C /repo status --porcelain)" ] || { echo "/repo is not clean"; exit 9; }
 out=seeded/RESULTS.tsv
-[ $# -eq 0 ] && { echo -e "seed\tproperty\tcheck\texit\tfirst violation line" > $out; set -- $(ls seeded | grep -v RESULTS); }
+[ $# -eq 0 ] && { echo -e "seed\tproperty\tcheck\texit\tfirst violation line" > $out; set -- $(ls seeded | grep -v RESULTS | sort -t- -k1,1 -k2,2n); }
 for s in "$@"; do
   d=seeded/$s; [ -f $d/patch.diff ] || continue
   pid=${s%%-*}
